@@ -110,7 +110,35 @@ def run(ctx):
         raise AnalysisBroken('anchor vanished: prepare_fragments_for_decode signature')
     bm = bmp[-1]
     Ab, _ = derived_pointers(f, [bm])
-    kexpr = 'arg0'
+    from ..poly import PolyCtx as _PCb, Poly as _Pb
+    pcb0 = _PCb(P, f, C)
+    Kp = pcb0.val(f.params[0][1])
+    def slot_alternatives(ptr):
+        """the element pointer a buffer is stored through may be chosen between the arrays (`is_parity ? &parity[i-k] : &data[i]`):
+        one (choice, root, offset) per alternative"""
+        pts, st, seen = [], [ptr], set()
+        while st:
+            x = st.pop()
+            if x in seen:
+                continue
+            seen.add(x)
+            d_ = f.defs.get(x)
+            if d_ is None:
+                continue
+            if d_.op in ('bitcast', 'getelementptr'):
+                st.append(d_.ops[0])
+            elif d_.op == 'select' or (d_.op == 'phi' and shared._loop_of(f, d_.bb) is None or d_.op == 'phi' and d_.bb is not shared._loop_of(f, d_.bb)[0]):
+                pts.append(d_)
+                st += (d_.ops[1:] if d_.op == 'select' else [v for v, _ in d_.incoming])
+        import itertools as _it
+        alts = [[(d_.res, v) for v in (d_.ops[1:] if d_.op == 'select' else [v for v, _ in d_.incoming])] for d_ in pts]
+        out = []
+        for combo in (_it.product(*alts) if alts else [()]):
+            pc_ = _PCb(P, f, C, choice=dict(combo))
+            root, off = pc_.ptr(ptr)
+            out.append((dict(combo), pc_, root, off))
+        return out[:16]
+    roots_of = {role: pcb0.ptr(arr)[0] for arr, role in zip(arrs, ('data', 'parity'))}
     for arr, role in zip(arrs, ('data', 'parity')):
         A, _ = derived_pointers(f, [arr])
         if not any(s.op == 'store' and s.ops[1] in A and f.defs.get(strip_ptr_casts(f, s.ops[0])) is not None
@@ -122,30 +150,37 @@ def run(ctx):
             vd = f.defs.get(strip_ptr_casts(f, s.ops[0]))
             if vd is None or vd.op != 'call' or vd.callee not in O.returns_owned:
                 continue
-            g = f.defs.get(s.ops[1])
-            iv = C.val(strip_int_casts(f, g.ops[-1])) if g is not None and g.op == 'getelementptr' else None
-            want = {iv} if role == 'data' else {f'({kexpr} add {iv})', f'({iv} add {kexpr})'}
-            # the flag store must be passed before the loop goes on / the function returns successfully
-            def is_flag(i):
-                return i.op == 'store' and i.ops[1] in Ab and shift_amount_of(f, C, i.ops[0]) in want
-            def is_wrong_flag(i):
-                return i.op == 'store' and i.ops[1] in Ab and not is_flag(i)
+            mine = [(ch, pc_, off) for ch, pc_, root, off in slot_alternatives(s.ops[1]) if root == roots_of[role]]
+            if not mine:
+                continue
             loop = shared._loop_of(f, s.bb)
             if loop is None:
                 r.undecided(f'prepare_fragments_for_decode: store at line {s.line}', loc=s.loc, msg='fresh buffer stored outside a loop over the fragments')
                 continue
-            # "leaving the iteration" = getting back to the loop header; error returns after a failed allocation do not pass it
-            esc = reaches_without(f, s.bb, lambda i: i.bb is loop[0] and i.idx == 0, is_flag, s.idx + 1)
-            wrong = reaches_without(f, s.bb, is_wrong_flag, is_flag, s.idx + 1)
-            inst = f'prepare_fragments_for_decode: fresh {role}[i] at line {s.line} sets bit {"i" if role == "data" else "k+i"}'
-            if esc is None and wrong is None:
-                r.ok(inst, func=f.name, loc=s.loc)
-            elif wrong is not None:
-                r.fail(inst, func=f.name, sig=f'{role} buffer flagged with bit {shift_amount_of(f, C, wrong.ops[0])}', loc=wrong.loc,
-                       msg=f'the library-allocated {role}[i] is recorded in realloc_bm with bit {shift_amount_of(f, C, wrong.ops[0])} instead of {sorted(want)[0]}: '
-                           'the copy leaks and another (caller-owned) fragment is freed')
-            else:
-                r.fail(inst, func=f.name, sig=f'{role} buffer not flagged', loc=s.loc, msg=f'a path leaves the iteration without recording the new {role}[i] in realloc_bm: it is never freed')
+            for ch, pc_, off in mine:
+                idx = _PCb.div(off, 8)
+                want = idx if role == 'data' else idx + Kp
+                def flag_amount(i):
+                    x = shift_amount_ssa(f, i.ops[0]) if i.op == 'store' and i.ops[1] in Ab else None
+                    return pc_.val(strip_int_casts(f, x)) if x is not None else None
+                # the flag store must be passed before the loop goes on / the function returns successfully
+                def is_flag(i):
+                    fa = flag_amount(i)
+                    return fa is not None and fa == want
+                def is_wrong_flag(i):
+                    return i.op == 'store' and i.ops[1] in Ab and not is_flag(i)
+                # "leaving the iteration" = getting back to the loop header; error returns after a failed allocation do not pass it
+                esc = reaches_without(f, s.bb, lambda i: i.bb is loop[0] and i.idx == 0, is_flag, s.idx + 1)
+                wrong = reaches_without(f, s.bb, is_wrong_flag, is_flag, s.idx + 1)
+                inst = f'prepare_fragments_for_decode: fresh {role}[i] at line {s.line} sets bit {"i" if role == "data" else "k+i"}'
+                if esc is None and wrong is None:
+                    r.ok(inst, func=f.name, loc=s.loc)
+                elif wrong is not None:
+                    r.fail(inst, func=f.name, sig=f'{role} buffer flagged with bit {shift_amount_of(f, C, wrong.ops[0])}', loc=wrong.loc,
+                           msg=f'the library-allocated {role}[i] (i = {idx}) is recorded in realloc_bm with bit {flag_amount(wrong)} instead of {want}: '
+                               'the copy leaks and another (caller-owned) fragment is freed')
+                else:
+                    r.fail(inst, func=f.name, sig=f'{role} buffer not flagged', loc=s.loc, msg=f'a path leaves the iteration without recording the new {role}[i] in realloc_bm: it is never freed')
     for en in ('liberasurecode_decode', 'liberasurecode_reconstruct_fragment'):
         g = P.fn(en)
         Cg = Canon(P, g)
